@@ -414,6 +414,10 @@ package keeper
 //@                 (Keeper).CreateOrder#*, (Keeper).CreateOrder$1#*, (Keeper).OnGroupClosed#*, (Keeper).OnGroupClosed$1#*, (Keeper).OnGroupClosed$1$1#*,
 //@                 lemma:keepsClosedRefl, lemma:keepsClosedTrans, lemma:keepsClosedHas, lemma:keepsClosedWF, lemma:keepsClosedOrder, lemma:keepsClosedBid, lemma:keepsClosedLease, lemma:keepsClosedCloseOrder, lemma:keepsClosedCloseBid, lemma:keepsClosedCloseLease, lemma:ordKeyPrefix, lemma:bidKeyPrefix, lemma:leaseKeyPrefix, lemma:mktWFSetOrder, lemma:mktWFSetBid, lemma:mktWFSetLease, lemma:mktWFGetOrder, lemma:mktWFGetBid, lemma:mktWFGetLease, lemma:orderBidDisjoint, lemma:orderLeaseDisjoint, lemma:bidLeaseDisjoint
 
+// C16: exactly the typed event on the state-changing path, none otherwise
+//@ property C16 := (Keeper).CreateOrder#*, (Keeper).CreateOrder$1#*, (Keeper).CreateBid#*, (Keeper).CreateLease#*, (Keeper).OnBidClosed#*, (Keeper).OnOrderClosed#*, (Keeper).OnLeaseClosed#*,
+//@                 (Keeper).OnOrderMatched#*, (Keeper).OnBidMatched#*, (Keeper).OnBidLost#*
+
 //@ property C08 := (Keeper).WithLeases#*, (Keeper).GetOrder#*
 
 //@ property C06 := orderKey#*, bidKey#*, leaseKey#*, ordersForGroupPrefix#*, bidsForOrderPrefix#*,
